@@ -84,7 +84,9 @@ static MVal gen_options(Rng& r, const std::string& fmt, const std::string& profi
         // assume_header + n_rows + column_names is broken from the first event (F34, pinned plan below), so it is not generated
         if (r.chance(1, 6) && !(o.getb("header", true) && o.geti("mapping", 0) == 1)) o.set("column_names", MVal::str(r.coin() ? "a,b,c" : "x, y"));
         if (r.chance(1, 6)) o.set("column_defaults", MVal::str(r.coin() ? "0,x,1.5" : ",,,1"));
-        if (r.chance(1, 6)) o.set("header_lines", MVal::uinteger(r.below(3)));
+        // header_lines > 1 is not generated: with blank or comment lines before the header the n_rows mapping emits an end_array
+        // without begin_array (F37, pinned plan)
+        if (r.chance(1, 6)) o.set("header_lines", MVal::uinteger(r.below(2)));
         if (r.chance(1, 8)) { static const char delims[] = {';', '|', '\t', ' '}; o.set("delim", MVal::uinteger((uint64_t)(unsigned char)r.pick(delims))); }
         // max_lines makes the parser stop without closing the open containers, which the repository's own test
         // (test_csv_parser_reinitialization) pins; every front end reports that stop differently, so it is generated for the c05
@@ -118,13 +120,21 @@ MVal generate(const std::string& profile, uint64_t seed, uint64_t idx) {
     plan.set("engine", MVal::str("iosim")); plan.set("check", MVal::str(profile));
     plan.set("seed", MVal::uinteger(seed)); plan.set("idx", MVal::uinteger(idx));
     std::string fmt = formats[idx % (sizeof formats / sizeof formats[0])];
-    if (profile == "c05" && idx % 8 == 7) fmt = "toon";      // C05 names TOON among the decoders (reader and decoder only: there is no TOON cursor)
+    if (profile == "c05" && idx % 8 == 7) fmt = "toon";
+    if (const char* only = getenv("IOSIM_ONLY_FORMAT")) fmt = only;      // development aid: concentrate a run on one format (never set by run.py)      // C05 names TOON among the decoders (reader and decoder only: there is no TOON cursor)
     plan.set("format", MVal::str(fmt));
     const FormatApi& api = api_of(fmt);
     if (fmt == "csv" && (idx / (sizeof formats / sizeof formats[0])) % 64 == 6 && profile == "c03") {
         MVal o = MVal::obj();
         plan.set("input_hex", MVal::str(to_hex("a,b\n1,2\n"))); o.set("header", MVal::boolean(true)); o.set("mapping", MVal::integer(1)); o.set("column_names", MVal::str("x,y"));
         plan.set("src", MVal::str("pinned:csv-header-names-rows")); plan.set("options", o); plan.set("knob", MVal::uinteger(0));
+        MVal dl = MVal::arr(); MVal sw = MVal::obj(); sw.set("kind", MVal::str("sweep")); dl.push(sw); plan.set("deliveries", dl);
+        return plan;
+    }
+    if (fmt == "csv" && (idx / (sizeof formats / sizeof formats[0])) % 64 == 7 && profile == "c05") {
+        MVal o = MVal::obj();
+        plan.set("input_hex", MVal::str(to_hex("\r."))); o.set("header", MVal::boolean(true)); o.set("mapping", MVal::integer(1)); o.set("header_lines", MVal::uinteger(2));
+        plan.set("src", MVal::str("pinned:csv-header-lines")); plan.set("options", o); plan.set("knob", MVal::uinteger(0));
         MVal dl = MVal::arr(); MVal sw = MVal::obj(); sw.set("kind", MVal::str("sweep")); dl.push(sw); plan.set("deliveries", dl);
         return plan;
     }
